@@ -246,7 +246,7 @@ def aval_sx(name, v):
         return ["str", v]
     if name == "type":
         return ["type", ty_sx(v)]
-    return ["str", str(v)]  # .call proxies etc.: printed text
+    return ["type", ["other", str(v)]]  # .call proxies etc.: a non-string object printed via str()
 
 
 _WHERE_RE = re.compile(r"line (\d+)\)$")
